@@ -352,8 +352,13 @@ def check_unary(project: Project, rep):
 
 
 def check_pad_snap(project: Project, rep):
-    from .merge import check_pad_semantic
+    from .merge import check_pad_semantic, check_snap_semantic
     sem = check_pad_semantic(project, rep)
+    from ..core.report import Report
+    pre_snap = Report("C09-snap")
+    sem["snap"] = check_snap_semantic(project, pre_snap)
+    if sem["snap"] != "unmodelled":
+        check_snap_semantic(project, rep)
     uv = project.function("persim.landscapes.auxiliary.union_vals")
     rep.analysed(uv)
     uvn = fn_view(project, uv)
@@ -428,7 +433,9 @@ def check_pad_snap(project: Project, rep):
                                                      f"of `{other}`")
     elif sem.get("crit") != "ok":
         rep.unmodelled("AR-PAD", uc, uc.node, "depth pairing loop (zip_longest) not found")
-    # AR-SNAP
+    # AR-SNAP: decided on the followed constructor calls (merge.check_snap_semantic); the site rule below is the fall-back
+    if sem.get("snap") != "unmodelled":
+        return
     sp = project.function("persim.landscapes.tools.snap_pl")
     rep.analysed(sp)
     f = fn_view(project, sp)
@@ -603,6 +610,59 @@ def check_lincomb(project: Project, rep):
         rep.unmodelled("AR-LC", fi, f, "linear combination works on raw value arrays; how depths are aligned was not recognised")
 
 
+def check_lazy_operands(project: Project, rep):
+    """AR-LAZYREAD: an arithmetic operator of either landscape class reads the lazily computed data (self.values /
+    self.critical_pairs, and the other operand's) only behind a call that always computes it: a landscape built with
+    compute=False is a legitimate operand"""
+    from ..core.cfg import CFG
+    from .c10 import _compute_gates
+    ops = ("__add__", "__sub__", "__neg__", "__mul__", "__rmul__", "__truediv__")
+    for kind, cq, attr in (("exact", "persim.landscapes.exact.PersLandscapeExact", "critical_pairs"),
+                           ("grid", "persim.landscapes.approximate.PersLandscapeApprox", "values")):
+        cls = project.classes.get(cq)
+        if cls is None:
+            continue
+        for mname in ops:
+            m = cls.methods.get(mname)
+            if m is None:
+                continue
+            cfg = CFG(m.node)
+            memo = {}
+            gates = _compute_gates(project, m, cls, cfg, memo)
+            # the other operand: <param>.compute_landscape() gates reads of <param>.<attr>
+            params = [p_ for p_ in m.params[1:2]]
+            other_gates = {}
+            for p_ in params:
+                other_gates[p_] = {nd.id for nd in cfg.nodes if nd.ast is not None and nd.kind in ("stmt", "return", "test") and any(
+                    isinstance(c, ast.Call) and isinstance(c.func, ast.Attribute) and c.func.attr == "compute_landscape"
+                    and isinstance(c.func.value, ast.Name) and c.func.value.id == p_ for c in ast.walk(nd.ast))}
+            bad = None
+            n_reads = 0
+            for nd in cfg.nodes:
+                a = nd.ast
+                if a is None or nd.kind not in ("stmt", "return", "test", "for"):
+                    continue
+                roots = [a.test] if nd.kind == "test" and hasattr(a, "test") else ([a.iter] if nd.kind == "for" else [a])
+                for r in roots:
+                    for x in ast.walk(r):
+                        if isinstance(x, ast.Attribute) and x.attr == attr and isinstance(x.value, ast.Name) \
+                                and isinstance(x.ctx, ast.Load) and x.value.id in ["self"] + params:
+                            n_reads += 1
+                            g = gates if x.value.id == "self" else other_gates[x.value.id]
+                            if nd.id not in g and not cfg.must_pass_through(cfg.entry.id, nd.id, g):
+                                bad = bad or (nd, x)
+            if bad:
+                nd, x = bad
+                rep.refuted("AR-LAZYREAD", m, nd.ast,
+                            f"{kind}.{mname} reads `{ast.unparse(x)}` without computing that landscape first: an operand built with "
+                            f"compute=False has no {attr} yet, so the operation raises (or combines empty data) instead of giving "
+                            f"the pointwise result",
+                            construct=f"{m.qualname}: read of {ast.unparse(x)} before compute_landscape")
+            elif n_reads:
+                rep.discharged("AR-LAZYREAD", m, m.node, f"{kind}.{mname}: every read of the lazily computed data lies behind its "
+                                                         f"computation")
+
+
 def run(project: Project, rep, tier: str):
     rep.explain(
         "C09 (clauses decided): AR-EFFECT / AR-OWN from the inter-procedural effect/ownership analysis over 22 methods and 12 "
@@ -624,6 +684,7 @@ def run(project: Project, rep, tier: str):
     check_arm_consistency(project, rep)
     from .merge import check_merge
     check_merge(project, rep, max_len=4 if tier == "thorough" else 3)
+    check_lazy_operands(project, rep)
     # AR-DEFAULT: the grid a re-sampling is asked for — `None` means "derive it from the inputs"; a truth test would also
     # replace an explicit 0
     from .common import none_vs_truthiness
